@@ -17,7 +17,8 @@ LEAN_MODULES = ["Clikit.Props.C03"]
 REQUIRED_THEOREMS = ["Clikit.Props.C03." + n for n in (
     "lead_eq_takeWhile", "tail_never_names", "options_after_path", "walk_none_iff", "walk_deepest", "alias_invariant",
     "resolve_unknown_first", "resolve_no_lead", "resolve_deepest", "pickDefault_first_parsable",
-    "pickDefault_none_parsable")]
+    "pickDefault_none_parsable", "sameLookupsB_sound", "alias_invariant_decided", "get?_alias", "lead_of_path",
+    "walk_from_some", "IsPath.unique")]
 TECHNIQUE = ("Lean 4 theorems on a model of DefaultResolver/CommandCollection (longest-prefix walk against a declarative "
              "path relation, alias invariance, options/tail never name commands) + differential correspondence on "
              "generated trees x lines, with a declarative oracle")
@@ -34,7 +35,13 @@ LEVEL_NOTE = ("Trusted: Lean kernel + standard axioms; the hand-written resolver
               "not verified; compared with the real resolver on every generated case); harness/app_common.py. Sibling "
               "commands with the SAME NAME (dict overwrite in CommandCollection) are modelled but not generated (the "
               "application rejects them at top level). The selection among default sub-commands depends on parsability, so "
-              "'adding options never changes the selection' is proved for the walk (the path), not for that choice.")
+              "'adding options never changes the selection' is proved for the walk (the path), not for that choice. "
+              "alias_invariant assumes that the two spellings look up the same commands level by level (SameLookups - a fact "
+              "about the real tree: names shadow aliases, a later registration of a colliding alias wins); it is decided by "
+              "the model (sameLookupsB, sound by sameLookupsB_sound, entry c03.same) on the tree read from the real "
+              "application for the leading tokens of every line against two respellings (found command's name: must be "
+              "true; its last alias: compared with the identity of the objects the real collections return), and the oracle "
+              "requires the same selection whenever the real collections find the same objects.")
 RULE = ("generated trees (depth<=3, fan-out<=3, aliases incl. colliding, default/anonymous/hidden/disabled, lenient) x 6 "
         "lines each (full/partial/wrong paths spelled with names or aliases, then arguments, options, optional -- tail "
         "containing command names); non-trivial = the line has >= 1 leading token or the app has a default command; "
@@ -46,6 +53,9 @@ TRUSTED_BASE = [
 ]
 ASSUMPTIONS = [
     "sibling commands have distinct names in generated trees (aliases may collide with names and with each other)",
+    "alias_invariant's hypothesis SameLookups is no longer only assumed: decided by the model on every generated tree x line "
+    "(c03.same) and compared with the real collections; all other hypotheses of the C03 theorems are case conditions on the "
+    "universally quantified tree and tokens (which shape of resolve applies), not facts taken from the real objects",
     "a bare ApplicationConfig with the DefaultResolver (no help/version listeners: those are C09's subject)",
 ]
 BATCH = 1500
@@ -179,6 +189,36 @@ def _parsable(cmd, tokens):
         return None
 
 
+def _objs(app, names):
+    """the Command OBJECTS the names find, level by level through the REAL collections; the list ends with None at
+    the first name that finds nothing (nothing is looked up after it)"""
+    coll = app.named_commands
+    out = []
+    for n in names:
+        if n not in coll:
+            out.append(None)
+            break
+        c = coll.get(n)
+        out.append(c)
+        coll = c.named_sub_commands
+    return out
+
+
+def _respellings(app, lead):
+    """two respellings of the leading tokens (same length): every token that finds a command replaced (a) by that
+    command's name, (b) by the last of its aliases (if it has one).  For each: does it find the very same objects
+    (the hypothesis SameLookups of alias_invariant, on the real collections)?"""
+    found = _objs(app, lead)
+    found = found + [None] * (len(lead) - len(found))
+    canon = [c.name if c is not None else t for t, c in zip(lead, found)]
+    alias = [c.aliases[-1] if c is not None and c.aliases else t for t, c in zip(lead, found)]
+
+    def same(a, b):
+        oa, ob = _objs(app, a), _objs(app, b)
+        return len(oa) == len(ob) and all(x is y for x, y in zip(oa, ob))
+    return {"canon": canon, "alias": alias, "same_canon": same(lead, canon), "same_alias": same(lead, alias)}
+
+
 def run_impl(case):
     from clikit.resolver.default_resolver import DefaultResolver
     app = ac.build_app(case["tree"])
@@ -186,6 +226,11 @@ def run_impl(case):
     obs = {"res": _resolve(app, tokens), "nodes": ac.extract_app(app)}
     r = DefaultResolver()
     obs["lead"] = r.get_arguments_to_test(iter(tokens))
+    rs = _respellings(app, obs["lead"])
+    obs["respell"] = rs
+    k = len(obs["lead"])
+    obs["res_canon"] = _resolve(app, rs["canon"] + tokens[k:])
+    obs["res_alias"] = _resolve(app, rs["alias"] + tokens[k:])
     if "--" in tokens:
         k = tokens.index("--")
         obs["lead_cut"] = r.get_arguments_to_test(iter(tokens[:k + 1]))
@@ -208,8 +253,15 @@ def model_requests(case):
     app = ac.build_app(case["tree"])
     nodes = ac.extract_app(app)
     ints, floats = pc.conv_tables(ac.all_texts(nodes, case["tokens"]))
+    # the hypothesis of alias_invariant (SameLookups), decided by the model on the tree read from the REAL application
+    # for the leading tokens against their two respellings (theorem sameLookupsB_sound)
+    from clikit.resolver.default_resolver import DefaultResolver
+    lead = DefaultResolver().get_arguments_to_test(iter(case["tokens"]))
+    rs = _respellings(app, lead)
     return [{"m": "c03.resolve", "commands": nodes, "tokens": case["tokens"], "ints": ints, "floats": floats},
-            {"m": "c03.lead", "tokens": case["tokens"]}]
+            {"m": "c03.lead", "tokens": case["tokens"]},
+            {"m": "c03.same", "commands": nodes, "names": lead, "names2": rs["canon"]},
+            {"m": "c03.same", "commands": nodes, "names": lead, "names2": rs["alias"]}]
 
 
 def model_obs(case, answers):
@@ -217,11 +269,13 @@ def model_obs(case, answers):
     if "ok" in r:
         o = r["ok"]
         r = {"ok": {"path": o["path"], "args_set": sorted(o["args_set"]), "opts_set": sorted(o["opts_set"])}}
-    return {"res": r, "lead": answers[1]}
+    return {"res": r, "lead": answers[1], "same_canon": answers[2], "same_alias": answers[3]}
 
 
 def impl_view(case, obs):
-    return {"res": obs["res"], "lead": obs["lead"]}
+    # same_canon: a command is always found under its own name (sibling names are distinct): must be true;
+    # same_alias: an alias may be shadowed by a sibling's name or a later registration: whatever the real collections say
+    return {"res": obs["res"], "lead": obs["lead"], "same_canon": True, "same_alias": obs["respell"]["same_alias"]}
 
 
 # ---- the statement, declaratively ------------------------------------------------------------
@@ -281,6 +335,10 @@ def _expected(case, obs):
     return {"path": chosen}, ls
 
 
+def _selection(res):
+    return res["ok"]["path"] if "ok" in res else res["err"]
+
+
 def oracle(case, obs):
     want, ls = _expected(case, obs)
     if obs["lead"] != ls:
@@ -288,6 +346,17 @@ def oracle(case, obs):
     if "lead_cut" in obs and obs["lead_cut"] != obs["lead"]:
         return "tokens after `--` changed the leading tokens: %r vs %r" % (obs["lead"], obs["lead_cut"])
     res = obs["res"]
+    # replacing a name on the path by an alias (or an alias by the name) that denotes the same command never changes
+    # the selection
+    rs = obs["respell"]
+    if not rs["same_canon"]:
+        return "the commands found by %r are not found under their own names %r" % (ls, rs["canon"])
+    for key in ("canon", "alias"):
+        if rs["same_" + key]:
+            other = obs["res_" + key]
+            if _selection(other) != _selection(res):
+                return "respelling the path %r as %r (same commands) changes the selection: %s vs %s" % (
+                    ls, rs[key], str(res)[:150], str(other)[:150])
     if "propagates" in want:
         if "err" not in res or res["err"] in ("CannotParseArgsException", "CannotResolveCommandException"):
             return "the parse of %s raises a non-parse error which must propagate, got %s" % (want["propagates"], res)
